@@ -171,8 +171,26 @@ def run(ctx):
             continue
         callee = callee_of(b.term[bi])
         edges, _ = guard_edges(b, callee, want_true)
-        somes = [x for o, bb, x, s in construct_sites(prog, OPTION, 'Some') if bb.path == b.path]
-        ok = bool(somes) and all(dominated_by_edges(b, x, edges, False) for x in somes)
+        if b.locals[0][0] == 'bool':
+            # filter(|x| [!]pred(x)) form: the closure result is the predicate value or its negation, or a constant per edge
+            dl = b.term[bi]['d'][0]
+            pol = None
+            if b.term[bi]['d'] == [0, []]:
+                pol = True
+            for bj in b.reachable():
+                for st_ in b.stmts(bj):
+                    if st_['k'] == 'a' and st_['p'] == [0, []]:
+                        rv_ = st_['rv']
+                        if rv_[0] == 'un' and rv_[1] == 'Not' and op_local(rv_[2]) == dl:
+                            pol = False
+                        elif rv_[0] == 'use' and op_local(rv_[1]) == dl:
+                            pol = True
+                        elif rv_[0] == 'use' and op_const(rv_[1]) is not None and str(op_const(rv_[1])).replace('const ', '').startswith('true'):
+                            pol = want_true if dominated_by_edges(b, bj, edges, False) else (not want_true)
+            ok = pol is not None and pol == want_true
+        else:
+            somes = [x for o, bb, x, s in construct_sites(prog, OPTION, 'Some') if bb.path == b.path]
+            ok = bool(somes) and all(dominated_by_edges(b, x, edges, False) for x in somes)
         ctx.ob('R12.5', f'handle_prune_journal|{what} polarity', ok, f'{what} is live (Some(id)) exactly when {callee.split("::")[-1]}() == {want_true}', b.loc(bi))
     pjc = [x for b in hp for x in b.call_blocks(STREAMER + 'prune_journal')]
     ctx.ob('R12.5', 'handle_prune_journal|awaits completion', bool(pjc) and any(b.yields() for b in hp), 'the request is answered after the journal thread finished pruning', hp[0].loc())
